@@ -492,6 +492,11 @@ impl PooledBuffer {
     /// Create a new pooled buffer of the specified size
     pub fn new(size: usize) -> Result<Self> {
         let pool = GLOBAL_POOLS.get_pool_for_size(size).clone();
+        if size > pool.config().chunk_size {
+            return Err(ZiporaError::invalid_data(
+                "requested size exceeds the largest pool chunk",
+            ));
+        }
         let chunk = pool.allocate()?;
 
         Ok(Self {
